@@ -94,7 +94,7 @@ def run(rep):
     rep.assumptions += ['the Hamiltonian (leapfrog, partial_momentum_refresh, initialize_trajectory, copy_state) is the environment in the kernel query; partial_momentum_refresh itself is checked from its MIR with the Math environment',
                         'array_normalize / esh_momentum_update return a unit vector (their numerical content is outside)', 'exact reals; round() lemma']
     rep.outside += ['floating-point rounding of the norm; the ESH closed form and its kinetic-energy change (the NRA queries over exp/sqrt did not finish within 3 minutes each - z3 returned unknown - so they are not claimed); array_normalize is decided over exact reals', 'more than %d halvings in one draw' % MAX_HALVINGS_EXPLORED]
-    parts(rep, [lambda: kernel(rep, mir, L, Ks), lambda: refresh_real(rep, mir, L), lambda: switch(rep, mir, L), lambda: chain_draw(rep, mir, L), lambda: unit_norm(rep, mir, L)])
+    parts(rep, [lambda: kernel(rep, mir, L, Ks), lambda: refresh_real(rep, mir, L), lambda: switch(rep, mir, L), lambda: switch_draw_config(rep, mir, L), lambda: chain_draw(rep, mir, L), lambda: unit_norm(rep, mir, L)])
 
 def kernel(rep, mir, L, Ks):
     for K in Ks:
@@ -203,6 +203,49 @@ def refresh_real(rep, mir, L):
     rep.paths += n
     if bad: rep.violated('C18 partial_momentum_refresh', 'refresh', 'momentum refresh: %s' % (bad[0],), model={'problems': [str(b)[:300] for b in bad]})
     else: rep.holds('C18 partial_momentum_refresh: microcanonical velocity is (p + nu z) normalised with nu = sqrt((exp(2h/L) - 1)/n), h = step_size x factor / 2; Euclidean/ExactNormal refresh is v\' = alpha v + sqrt(1 - alpha^2) z with the kinetic energy updated (%d paths)' % n)
+
+def switch_draw_config(rep, mir, L):
+    """the three MCLMC presets' new_chain: the switch draw handed to the chain is trajectory_switch_fraction x num_tune (truncated), the trajectory
+    kind and subsample frequency are those of the settings, and the initial kinetic energy is microcanonical only for the Microcanonical kind"""
+    import re as _re
+    fns = [f for n, f in mir.fns.items() if _re.match(r'^sampler::<impl at src/sampler.rs:\d+:1: \d+:\d+>::new_chain$', n) and 'MclmcSettings' in f.header]
+    rep.cover('C18 three MCLMC new_chain implementations found', len(fns) == 3); bad = []; n = 0
+    tk = VM(mir, RealAlg()).enums.get('MclmcTrajectoryKind') or []
+    for fn in fns:
+        fn.parse()
+        for tkind in tk:
+            A = RealAlg(); vm = VM(mir, A, inst={}); install_misc(vm); sname = 'MclmcSettings'
+            frac = A.fresh('trajectory_switch_fraction'); nt = z3.Int('num_tune'); freq = A.fresh('subsample_frequency')
+            fields = L.fields(sname); vals = {f: Opaque(f) for f in fields}
+            vals.update({'trajectory_switch_fraction': frac, 'num_tune': nt, 'subsample_frequency': freq, 'trajectory_kind': Enum(tk.index(tkind), tkind, (), 'MclmcTrajectoryKind'), 'momentum_decoherence_length': A.fresh('L'),
+                         'adapt_options': Struct(tuple(Opaque('ao%d' % i) for i in range(12)), 'AdaptOptionsOpaque')})
+            def chain_new(vm, m, c, a): m.log('events', ('chain_new', list(a))); return ret(m, Opaque('chain'))
+            vm.add_model(r'^MclmcChain::<.*>::new$', chain_new)
+            def ham_new(vm, m, c, a): m.log('events', ('ham_new', a[2])); return ret(m, Opaque('hamiltonian'))
+            vm.add_model(r'^TransformedHamiltonian::<.*>::new$', ham_new)
+            # everything else new_chain calls builds components that do not enter the checked arguments
+            vm.add_model(r'^(?!MclmcChain::|TransformedHamiltonian::<.*>::new$|<f64|<u64|f64::|core::|std::ops|std::cmp|std::num).*', lambda vm, m, c, a: ret(m, Opaque(c[:40])))
+            m = Machine(); m.ghost['events'] = []; m.pc += [nt >= 0, nt < 2 ** 32, frac.v >= 0, frac.v <= 1]
+            try: outs = vm.run(fn, [Ref(m.alloc(L.make(sname, vals))), z3.Int('chain_id'), Opaque('math'), Ref(m.alloc(Opaque('rng')))], m)
+            except Exception as e:
+                rep.unknown('C18 new_chain %s' % fn.header[:60], '%s: %s' % (type(e).__name__, str(e)[:200])); continue
+            n += len(outs); rep.absorb_vm(vm)
+            for (m2, k, v) in outs:
+                if k != 'ret': bad.append(('new_chain panics', str(v)[:100])); continue
+                cn = [e for e in m2.ghost['events'] if e[0] == 'chain_new']; hn = [e for e in m2.ghost['events'] if e[0] == 'ham_new']
+                if len(cn) != 1 or len(hn) != 1: bad.append(('MclmcChain::new / TransformedHamiltonian::new not called exactly once',)); continue
+                args = cn[0][1]; ints = [x for x in args if z3.is_expr(x) and z3.is_int(x)]
+                s_ = z3.Solver(); s_.set('timeout', 30000); s_.add(*m2.pc); s_.add(*A.lemmas)
+                want = z3.ToInt(frac.v * z3.ToReal(nt))
+                s_.add(z3.And(*[x != want for x in ints]) if ints else z3.BoolVal(True))
+                if s_.check() != z3.unsat: bad.append(('no argument of MclmcChain::new is trajectory_switch_fraction x num_tune (truncated): the switch does not happen at the configured draw', fn.header[40:110]))
+                kinds = [x for x in args if isinstance(x, Enum) and x.ty == 'MclmcTrajectoryKind']
+                if not kinds or kinds[0].name != tkind: bad.append(('the chain is built with another trajectory kind than the settings say',))
+                ik = hn[0][1]
+                if not (isinstance(ik, Enum) and (ik.name == 'Microcanonical') == (tkind == 'Microcanonical') and ik.name in ('Microcanonical', 'Euclidean')): bad.append(('initial kinetic-energy kind %s for trajectory kind %s' % (getattr(ik, 'name', ik), tkind),))
+    rep.paths += n
+    if bad: rep.violated('C18 MCLMC presets hand the configured switch draw to the chain', 'switch_config', 'MclmcSettings::new_chain: %s' % (bad[0],), model={'problems': [str(b)[:300] for b in bad[:5]]})
+    elif n: rep.holds('C18 the three MCLMC presets build the chain with switch_draw = trunc(trajectory_switch_fraction x num_tune), the configured trajectory kind, and a Euclidean start unless the kind is Microcanonical (%d paths)' % n)
 
 def chain_draw(rep, mir, L):
     """MclmcChain::draw bookkeeping around the kernel: the position returned is that of the kernel's state, adapt() gets that state and the
